@@ -3,11 +3,11 @@ CONSTANTS
   Class = "streamns"
   Ideal = FALSE
   KSet = {"n", "orph"}
-  NW <- W21
-  NR <- W12
+  NW <- W20
+  NR <- W02
   NC <- W11
   WMax = 3
   CMax = 2
-INVARIANTS TypeOK Fifo NoSpuriousError NoLoss RestClose RestRead RestWrite RestNoLoss
+INVARIANTS TypeOK Fifo NoSpuriousError NoLoss RestAll
 PROPERTIES ClosedForGood
 CHECK_DEADLOCK FALSE
